@@ -5,24 +5,27 @@
 -/
 import TB.Spec.ExportSpec
 import TB.Lemmas.Run
+import TB.Lemmas.RunARun
 namespace TB
 
 /-- the log only grows -/
 theorem solvePiece_ops_extend (H : Bytes → Bytes) (st : St) (w : Work) :
-    ∃ new, (solvePiece H st w).1.ops = st.ops ++ new := by
-  sorry
+    ∃ new, (solvePiece H st w).1.ops = st.ops ++ new :=
+  (solvePiece_ext H st w).extends
 
 /-- every write issued while evaluating a piece stores a slice of a buffer whose hash is the piece hash, cut
     at the segment's own position in the buffer, at the segment's file offset in the segment's export image -/
 theorem C01_write_sound (H : Bytes → Bytes) (st : St) (w : Work) :
     ∀ o ∈ newOps st (solvePiece H st w).1, WriteSound H w o := by
-  sorry
+  intro o ho
+  exact PieceOp.writeSound ((solvePiece_ext H st w).newOps o ho)
 
 /-- the hash comparison gates the first mutation: if evaluating a piece mutated anything, some buffer matched -/
 theorem C01_gate (H : Bytes → Bytes) (st : St) (w : Work)
     (h : ∃ o ∈ newOps st (solvePiece H st w).1, o.kind.mutating = true) :
     ∃ buf, H buf = w.hash := by
-  sorry
+  obtain ⟨o, ho, hm⟩ := h
+  exact PieceOp.gate ((solvePiece_ext H st w).newOps o ho) hm
 
 /-- the writer on its own: whatever sources and buffer it is given, segment `k` is cut at `segStart k` —
     skipped segments (padding, already exported) still advance the cursor -/
@@ -30,12 +33,21 @@ theorem C01_writer_cursor (st : St) (pairs : List (WSeg × Option Path)) (buf : 
     ∀ o ∈ newOps st (writeSegs st pairs buf start).1, ∀ off data, o.kind = .write off data →
       ∃ k seg, (pairs.map (·.1))[k]? = some seg ∧ o.path = seg.ent.fullTarget ∧ off = seg.off
         ∧ data = (buf.drop (start + segStart (pairs.map (·.1)) k)).take seg.len := by
-  sorry
+  intro o ho off data hk
+  obtain ⟨k, seg, hseg, _, hs⟩ := (writeSegs_ext st pairs buf start).newOps o ho
+  obtain ⟨h1, h2, h3, _⟩ := SegOp.write hs hk
+  exact ⟨k, seg, hseg, h1, h2, h3⟩
 
 /-- run level: every write of a whole run belongs to some work item of that run and is sound for it -/
 theorem C01_run (H : Bytes → Bytes) (inp : RunIn) :
     ∀ o ∈ (run H inp).ops, ∀ off data, o.kind = .write off data →
       ∃ w ∈ (run H inp).work, WriteSound H w o := by
-  sorry
+  intro o ho off data hk
+  rcases (run_inv H inp).2 o ho with (h | h | ⟨e, _, _, h | h, _⟩) | ⟨w, hw, h, _⟩
+  · rw [h] at hk; cases hk
+  · rw [h] at hk; cases hk
+  · rw [h] at hk; cases hk
+  · rw [h] at hk; cases hk
+  · exact ⟨w, hw, h.writeSound⟩
 
 end TB
